@@ -39,3 +39,78 @@ Theorem C12_explicit_boundary : forall (F : FieldOps) (m : Mesh F) (bc : BCs F) 
   explicit_step F m bc old dt rhs g = ghost_value F m bc (fun c => kadd F (old c) (kmul F dt (rhs c))) a hi g.
 Proof. exact explicit_step_boundary. Qed.
 Print Assumptions C12_explicit_boundary.
+
+From Coq Require Import Reals.
+From PFV Require Import Boundary Solver StencilThy ConservThy MaxPrincipleThy MaxPrincipleModel ComparisonThy.
+
+(* ---- the limits, with explicit rates, on every grid class and dimension (Theory/ComparisonThy.v): spatial operator
+   S = -diffusionTerm(D) + convectionUpwindTerm(u) + linearSourceTerm(beta), D >= 0, u discretely divergence-free, over R ---- *)
+Section C12b.
+Import ListNotations.
+Local Open Scope R_scope.
+Variable m : Mesh ROps.
+Variable D u : fvar ROps.
+Variable cells : list cell.
+Hypothesis Hne : cells <> [].
+Hypothesis Hcells : forall c a, In c cells -> In a (active_axes ROps m) ->
+  (1 <= cidx a c <= mN ROps m a)%nat /\ signs_ok m D c a.
+Hypothesis Hdiv : forall c, In c cells -> rsuml (fun a => divrow ROps m u a c) (active_axes ROps m) = 0.
+
+(* dt -> infinity: the step is within  W*A/(A + dt*B)  of the steady solution (W >= |old - steady|, alpha <= A, beta >= B > 0) *)
+Theorem C12_step_to_steady : forall (alpha beta s old x y : cvar ROps) (dt W A B : R),
+  0 < dt -> 0 <= W -> 0 < B ->
+  (forall c, In c cells -> 0 < alpha c <= A /\ B <= beta c) ->
+  (forall c, In c cells -> be_row m D u alpha beta s old dt x c) ->
+  (forall c, In c cells -> steady_row m D u beta s y c) ->
+  (forall c, In c cells -> Rabs (old c - y c) <= W) ->
+  (forall c a, In c cells -> In a (active_axes ROps m) ->
+     nb_homog cells (fun c => x c - y c) c (cdn a c) /\ nb_homog cells (fun c => x c - y c) c (cup a c)) ->
+  forall c, In c cells -> Rabs (x c - y c) <= W * A / (A + dt * B).
+Proof. exact (step_to_steady m D u cells Hne Hcells Hdiv). Qed.
+(* dt -> 0: the step is within  dt*P/a0  of the old field (P >= |steady residual of the old field|, alpha >= a0 > 0) *)
+Theorem C12_step_to_old : forall (alpha beta s old x : cvar ROps) (dt P a0 : R),
+  0 < dt -> 0 <= P -> 0 < a0 ->
+  (forall c, In c cells -> a0 <= alpha c /\ 0 <= beta c) ->
+  (forall c, In c cells -> be_row m D u alpha beta s old dt x c) ->
+  (forall c, In c cells -> Rabs (s c - Srow m D u beta old c) <= P) ->
+  (forall c a, In c cells -> In a (active_axes ROps m) ->
+     nb_homog cells (fun c => x c - old c) c (cdn a c) /\ nb_homog cells (fun c => x c - old c) c (cup a c)) ->
+  forall c, In c cells -> Rabs (x c - old c) <= dt * P / a0.
+Proof. exact (step_to_old m D u cells Hne Hcells Hdiv). Qed.
+(* implicit vs explicit step: O(dt^2) *)
+Theorem C12_implicit_vs_explicit : forall (alpha beta s old xi xe w : cvar ROps) (dt Q a0 : R),
+  0 < dt -> 0 <= Q -> 0 < a0 ->
+  (forall c, In c cells -> a0 <= alpha c /\ 0 <= beta c) ->
+  (forall c, In c cells -> be_row m D u alpha beta s old dt xi c) ->
+  (forall c, In c cells -> alpha c * w c = s c - Srow m D u beta old c) ->
+  (forall c, xe c = old c + dt * w c) ->
+  (forall c, In c cells -> Rabs (Srow m D u beta w c) <= Q) ->
+  (forall c a, In c cells -> In a (active_axes ROps m) ->
+     nb_homog cells (fun c => xi c - xe c) c (cdn a c) /\ nb_homog cells (fun c => xi c - xe c) c (cup a c)) ->
+  forall c, In c cells -> Rabs (xi c - xe c) <= dt * dt * Q / a0.
+Proof. exact (implicit_vs_explicit m D u cells Hne Hcells Hdiv). Qed.
+End C12b.
+Print Assumptions C12_step_to_steady.
+Print Assumptions C12_step_to_old.
+Print Assumptions C12_implicit_vs_explicit.
+(* the rates vanish in the limits *)
+Theorem C12_rate_to_steady_vanishes : forall W A B : R, (0 <= W)%R -> (0 < A)%R -> (0 < B)%R ->
+  forall eps, (0 < eps)%R -> exists T, (0 < T)%R /\ forall dt, (T < dt)%R -> (W * A / (A + dt * B) < eps)%R.
+Proof. exact rate_to_steady_vanishes. Qed.
+Theorem C12_rate_to_old_vanishes : forall P a0 : R, (0 <= P)%R -> (0 < a0)%R ->
+  forall eps, (0 < eps)%R -> exists d, (0 < d)%R /\ forall dt, (0 < dt < d)%R -> (dt * P / a0 < eps)%R.
+Proof. exact rate_to_old_vanishes. Qed.
+Print Assumptions C12_rate_to_steady_vanishes.
+(* the row hypotheses are the interior equations of is_solution for the documented term lists *)
+Theorem C12_rows_from_is_solution : forall (m : Mesh ROps) (bc : BCs ROps) (D u : fvar ROps) (x alpha beta s old : cvar ROps) (dt : R) c,
+  dt <> 0%R ->
+  is_solution ROps m bc (TTrans ROps alpha dt old :: TDiff ROps (-1)%R D :: TUpw ROps 1%R u u :: TLin ROps 1%R beta :: TConst ROps 1%R s :: nil) x ->
+  Grid.interior ROps m c = true ->
+  be_row m D u alpha beta s old dt x c.
+Proof. exact is_solution_be_row. Qed.
+Theorem C12_steady_rows_from_is_solution : forall (m : Mesh ROps) (bc : BCs ROps) (D u : fvar ROps) (y beta s : cvar ROps) c,
+  is_solution ROps m bc (TDiff ROps (-1)%R D :: TUpw ROps 1%R u u :: TLin ROps 1%R beta :: TConst ROps 1%R s :: nil) y ->
+  Grid.interior ROps m c = true ->
+  steady_row m D u beta s y c.
+Proof. exact is_solution_steady_row. Qed.
+Print Assumptions C12_rows_from_is_solution.
